@@ -112,6 +112,29 @@ def run(ctx):
                 paths.setdefault(k, os.path.join(root, f"p{pi}_{k}.h5"))
                 return paths[k]
 
+            # "on entry" means when the context is ENTERED, not when its object was made: in a third of the programs every context
+            # object is built up front (ExitStack style) and entered later, possibly inside other contexts
+            prebuilt_mode = (pi % 3 == 1)
+            level_bad = []
+
+            def make_cm(p):
+                if p[0] == "pool":
+                    pool = None if p[1] is None else FakePool(p[1], log)
+                    return a.enable_pool(pool, close_pool=p[2], parallelize_prior=p[3])
+                return a.auto_checkpoint(path_of(p[1]), every=p[2], save_config=p[3], save_flow=p[4])
+
+            prebuilt = {}
+
+            def prebuild(p):
+                if p[0] == "seq":
+                    prebuild(p[1])
+                    prebuild(p[2])
+                elif p[0] in ("pool", "auto"):
+                    prebuilt[id(p)] = make_cm(p)
+                    prebuild(p[-1])
+            if prebuilt_mode:
+                prebuild(prog)
+
             def execp(p):
                 k = p[0]
                 if k == "skip":
@@ -125,13 +148,16 @@ def run(ctx):
                     execp(p[1])
                     execp(p[2])
                     return
-                if k == "pool":
-                    pool = None if p[1] is None else FakePool(p[1], log)
-                    with a.enable_pool(pool, close_pool=p[2], parallelize_prior=p[3]):
-                        execp(p[4])
-                    return
-                with a.auto_checkpoint(path_of(p[1]), every=p[2], save_config=p[3], save_flow=p[4]):
-                    execp(p[5])
+                cm = prebuilt[id(p)] if prebuilt_mode else make_cm(p)
+                ent = (a.log_likelihood, a.log_prior, getattr(a, "_checkpoint_defaults", None))
+                try:
+                    with cm:
+                        execp(p[-1])
+                finally:
+                    # leaving THIS context (normally or not) puts back what was there when it was entered
+                    now = (a.log_likelihood, a.log_prior, getattr(a, "_checkpoint_defaults", None))
+                    if now[0] is not ent[0] or now[1] is not ent[1] or now[2] is not ent[2]:
+                        level_bad.append((to_coq(p)[:80], [n is e for n, e in zip(now, ent)]))
             outcome = "Normal"
             err = None
             try:
@@ -143,7 +169,10 @@ def run(ctx):
                 err = repr(e)
             nrun += 1
             ctx.count(repr(prog), prog[0] in ("pool", "auto"), kind=prog[0])
-            case = {"program": to_coq(prog), "preset_defaults": preset}
+            case = {"program": to_coq(prog), "preset_defaults": preset, "context_objects_built_up_front": prebuilt_mode}
+            if level_bad:
+                ctx.violation("level-not-restored" + (":prebuilt" if prebuilt_mode else ""),
+                              f"leaving {level_bad[0][0]}: (log_likelihood, log_prior, defaults) identical to their values on entry: {level_bad[0][1]}", case)
             if len(ctx.samples) < 3 and prog[0] in ("pool", "auto") and "Raise" in to_coq(prog):
                 ctx.sample(dict(case, outcome=outcome))
             if outcome == "Other":
